@@ -1,10 +1,205 @@
-import JP.Driver
-import JP.Impl.Den
+import JP.Lemmas.Cli
 
-/-! # Property C20 — theorems (see DESIGN.md §6) -/
+/-!
+# C20: the json-patch command applies its patch files in order, or fails cleanly
+
+Model: `Driver.cliRun stdin files` (`main` of v5/cmd/json-patch/main.go): `files` are the
+contents of the `-p` arguments in command-line order, `none` for a file that cannot be read;
+the result is what is written to standard output and the exit status.
+-/
 
 namespace JP
 namespace C20
+open CliLemmas
+
+/-- `jsonpatch.DecodePatch` of one file, the error dropped -/
+abbrev decode : Bytes → Option (List Impl.Op) := CliLemmas.decode
+
+/-- `mdoc, err = patch.Apply(mdoc)` folded over the patches from left to right -/
+abbrev foldApply : Bytes → List (List Impl.Op) → Option Bytes := CliLemmas.foldApply
+
+/-- the defining equations of the fold: order is left to right, the first failure aborts -/
+theorem foldApply_nil (d : Bytes) : foldApply d [] = some d := rfl
+
+theorem foldApply_cons (d : Bytes) (p : List Impl.Op) (ps : List (List Impl.Op)) :
+    foldApply d (p :: ps) =
+      (match Impl.applyBytes {} [] d p with
+       | .ok out => foldApply out ps
+       | _ => none) := by
+  simp only [foldApply, CliLemmas.foldApply, applyOne]
+  cases Impl.applyBytes {} [] d p <;> rfl
+
+/-- exit status 0 with output `out` exactly when every file exists, every file decodes and
+the left-to-right fold of `Apply` over standard input yields `out` -/
+theorem run_ok_iff (stdin : Bytes) (files : List (Option Bytes)) (out : Bytes) :
+    Driver.cliRun stdin files = (out, 0) ↔
+      ∃ (texts : List Bytes) (patches : List (List Impl.Op)), files = texts.map some ∧ texts.mapM decode = some patches
+        ∧ foldApply stdin patches = some out := by
+  constructor
+  · intro h
+    rw [cliRun_eq] at h
+    split at h
+    · simp at h
+    · rename_i hn
+      simp only [Bool.not_eq_true] at hn
+      refine ⟨files.filterMap id, ?_⟩
+      cases hd : decodeAll (files.filterMap id) with
+      | none => simp [hd] at h
+      | some ps =>
+        refine ⟨ps, eq_map_some_of_no_none files hn, by rw [mapM_decode]; exact hd, ?_⟩
+        simp only [hd] at h
+        cases hf : CliLemmas.foldApply stdin ps with
+        | none => simp [hf] at h
+        | some o =>
+          simp only [hf, Prod.mk.injEq, and_true] at h
+          subst h
+          exact hf
+  · rintro ⟨texts, patches, rfl, hd, hf⟩
+    rw [mapM_decode] at hd
+    rw [cliRun_texts, hd]
+    simp only []
+    rw [show CliLemmas.foldApply stdin patches = some out from hf]
+
+/-- the exit status is 0 or 1 -/
+theorem run_status (stdin : Bytes) (files : List (Option Bytes)) :
+    (Driver.cliRun stdin files).2 = 0 ∨ Driver.cliRun stdin files = ([], 1) := by
+  rw [cliRun_eq]
+  split
+  · exact .inr rfl
+  · cases decodeAll (files.filterMap id) with
+    | none => exact .inr rfl
+    | some ps =>
+      simp only []
+      cases CliLemmas.foldApply stdin ps with
+      | none => exact .inr rfl
+      | some o => exact .inl rfl
+
+/-- a failing run writes nothing to standard output -/
+theorem run_fail_clean (stdin : Bytes) (files : List (Option Bytes)) :
+    (Driver.cliRun stdin files).2 ≠ 0 → (Driver.cliRun stdin files).1 = [] := by
+  intro h
+  cases run_status stdin files with
+  | inl h0 => exact absurd h0 h
+  | inr h1 => rw [h1]
+
+/-- a missing file fails the run whatever the other files are -/
+theorem run_missing (stdin : Bytes) (files : List (Option Bytes)) (h : none ∈ files) :
+    Driver.cliRun stdin files = ([], 1) := by
+  rw [cliRun_eq]
+  have : files.any Option.isNone = true := List.any_eq_true.2 ⟨none, h, rfl⟩
+  simp [this]
+
+/-- order: running with the files `f ++ g` is running with `f` and then running with `g`
+on its output, when the first run succeeds -/
+theorem run_order_opt (stdin mid : Bytes) (f g : List (Option Bytes))
+    (hf : Driver.cliRun stdin f = (mid, 0)) :
+    Driver.cliRun stdin (f ++ g) = Driver.cliRun mid g := by
+  obtain ⟨texts, patches, rfl, hd, hfold⟩ := (run_ok_iff stdin f mid).1 hf
+  rw [mapM_decode] at hd
+  rw [cliRun_eq, cliRun_eq mid g]
+  simp only [List.any_append, any_isNone_map_some, Bool.false_or, List.filterMap_append,
+    filterMap_map_some, decodeAll_append, hd]
+  split
+  · rfl
+  · cases decodeAll (g.filterMap id) with
+    | none => rfl
+    | some qs =>
+      simp only [foldApply_append, show CliLemmas.foldApply stdin patches = some mid from hfold]
+
+theorem run_order (stdin mid : Bytes) (f g : List Bytes)
+    (hf : Driver.cliRun stdin (f.map some) = (mid, 0)) :
+    Driver.cliRun stdin ((f ++ g).map some) = Driver.cliRun mid (g.map some) := by
+  rw [List.map_append]; exact run_order_opt stdin mid _ _ hf
+
+/-- … and when the first run fails, so does the whole run -/
+theorem run_order_fail (stdin : Bytes) (f g : List (Option Bytes))
+    (hf : (Driver.cliRun stdin f).2 ≠ 0) :
+    Driver.cliRun stdin (f ++ g) = ([], 1) := by
+  cases run_status stdin (f ++ g) with
+  | inr h => exact h
+  | inl h0 =>
+    exfalso
+    have hfg : Driver.cliRun stdin (f ++ g) = ((Driver.cliRun stdin (f ++ g)).1, 0) := by
+      rw [← h0]
+    obtain ⟨texts, patches, he, hd, hfold⟩ := (run_ok_iff _ _ _).1 hfg
+    rw [mapM_decode] at hd
+    -- split the witnesses along `f ++ g`
+    have hlen : f.length ≤ texts.length := by
+      have := congrArg List.length he
+      simp only [List.length_append, List.length_map] at this
+      omega
+    have hf' : f = (texts.take f.length).map some := by
+      have := congrArg (List.take f.length) he
+      simpa [List.take_append_of_le_length, List.map_take] using this
+    have htexts : texts = texts.take f.length ++ texts.drop f.length := (List.take_append_drop _ _).symm
+    rw [htexts, decodeAll_append] at hd
+    cases h1 : decodeAll (texts.take f.length) with
+    | none => simp [h1] at hd
+    | some ps =>
+      cases h2 : decodeAll (texts.drop f.length) with
+      | none => simp [h1, h2] at hd
+      | some qs =>
+        simp only [h1, h2, Option.some.injEq] at hd
+        subst hd
+        rw [show foldApply stdin (ps ++ qs) = CliLemmas.foldApply stdin (ps ++ qs) from rfl,
+          foldApply_append] at hfold
+        cases h3 : CliLemmas.foldApply stdin ps with
+        | none => simp [h3] at hfold
+        | some mid =>
+          apply hf
+          rw [hf', cliRun_texts, h1]
+          simp only [h3]
+
+/-- without patch files the input is copied to the output -/
+theorem run_no_files (stdin : Bytes) : Driver.cliRun stdin [] = (stdin, 0) := by
+  rw [cliRun_eq]; rfl
+
+/-- one file: decode it and apply it -/
+theorem run_one_file (stdin t : Bytes) :
+    Driver.cliRun stdin [some t] =
+      (match Impl.decodePatch t with
+       | .ok ops =>
+         (match Impl.applyBytes {} [] stdin ops with
+          | .ok out => (out, 0)
+          | _ => ([], 1))
+       | _ => ([], 1)) := by
+  have : [some t] = [t].map some := rfl
+  rw [this, cliRun_texts]
+  simp only [decodeAll, CliLemmas.decode]
+  cases Impl.decodePatch t with
+  | ok ops =>
+    simp only [CliLemmas.foldApply, applyOne]
+    cases Impl.applyBytes {} [] stdin ops <;> rfl
+  | err e => rfl
+  | panic => rfl
+
+/-! ### the hypotheses are satisfiable -/
+
+def doc0 : Bytes := ascii "{\"a\":1}"
+def file1 : Bytes := ascii "[{\"op\":\"add\",\"path\":\"/b\",\"value\":2}]"
+def file2 : Bytes := ascii "[{\"op\":\"remove\",\"path\":\"/a\"}]"
+
+/-- `run_ok_iff` / `run_order`: two files, applied in command-line order -/
+example : Driver.cliRun doc0 [some file1, some file2] = (ascii "{\"b\":2}", 0) := by decide +kernel
+
+example : Driver.cliRun doc0 ([file1].map some) = (ascii "{\"a\":1,\"b\":2}", 0) := by decide +kernel
+
+/-- the order matters: the second file first fails here (`/b` does not exist yet) -/
+example : Driver.cliRun doc0 [some file2, some (ascii "[{\"op\":\"remove\",\"path\":\"/b\"}]"), some file1]
+    = ([], 1) := by decide +kernel
+
+/-- `run_fail_clean`: a missing file, an undecodable file -/
+example : (Driver.cliRun doc0 [some file1, none]).2 ≠ 0 := by decide +kernel
+example : (Driver.cliRun doc0 [some (ascii "[{\"op\":\"add\",\"path\":\"/b\"}]")]).2 ≠ 0 := by decide +kernel
+
+example : Driver.cliRun doc0 [] = (doc0, 0) := by decide +kernel
 
 end C20
 end JP
+
+-- #print axioms JP.C20.run_ok_iff
+-- #print axioms JP.C20.run_fail_clean
+-- #print axioms JP.C20.run_order
+-- #print axioms JP.C20.run_order_opt
+-- #print axioms JP.C20.run_order_fail
+-- #print axioms JP.C20.run_no_files
